@@ -72,6 +72,14 @@ CHECKS = {
          "Exploration: 1400 applications of the 12 shipped filter classes and 5 interpolatable variants (each class at least once per run) to generated component-graph fonts under include / exclude / predicate selections, on the font itself or on a separate glyph-set copy, with one filter object reused across fonts; from the snapshots the four clauses are decided: untouched glyphs unchanged, every changed/added/removed glyph reported, source font unchanged when a separate glyph set is given, reused object == fresh object.",
          "Glyph state = outline, components, anchors, metrics, unicodes, lib; over-reporting only counted.",
          "DESIGN.md section 5 C14, 2.3"),
+ "C08": ("runtime monitoring: per-table sha256 digests of saved fonts compared across fresh interpreters started with different PYTHONHASHSEED values and across library / memory-vs-disk / inplace / call-history variants",
+         "Exploration: 64 cases (10 repository fixtures + generated layout-heavy UFOs, outline UFOs with lib filters, generated designspaces) each compiled in 4 fresh interpreters (PYTHONHASHSEED 0-3; thorough: 8) under {defcon, ufoLib2} x {in memory, saved and re-opened} x {first call, second call on the same objects, after another compile function, inplace=True}; all digests of one (case, function, options) must be equal, a mismatch is localised to the table. ufo2ft has no threads: hash order and call history are the only schedules.",
+         "SOURCE_DATE_EPOCH pinned; head checksum masked; complete public.glyphOrder except in the per-library stratum.",
+         "DESIGN.md section 5 C08"),
+ "C19": ("runtime monitoring: closed-form variation reference (exact rationals, independent of varLib/fontMath) against real Instantiator instances; deep before/after snapshots of all sources; repeated generation from one instantiator",
+         "Exploration: 2000 generated compatible master families (1-2 axes, 2-4 masters, intermediate/sparse masters, axis maps, rules, aligned/ragged kerning, both UFO libraries) x ~14 instance locations each (master locations, axis extremes, rule boundaries, interior points) x rounding on/off; every coordinate, advance, anchor, info number and kerning value is compared with the master (at master locations) or the closed-form blend; glyph set, unicodes, rule swaps (involution), source snapshots and k-th generation == first are checked.",
+         "Closed forms cover the layouts listed in the evidence assumptions; exact ties accept both neighbours only where the statement does not fix the rounding mode.",
+         "DESIGN.md section 5 C19, section 3 R-var, 4.5"),
 }
 
 NOT_APPLICABLE = [
